@@ -26,7 +26,7 @@ HISTORIES = ["stale", "reveal_unreveal", "bulk_reset"]
 
 def bounds_text(tier):
     if tier == "quick":
-        return "n=3 (8 K), n=4 (1024 K) x 2 computers, free stale pre-state; history variants on seeded subsets"
+        return "n=3 (8 K), n=4 (1024 K) x 2 computers, n=5 48+16 listed K, n=6 4 K (cached); free stale pre-state; history variants on seeded subsets"
     return ("n=3,4 all K x 2 computers; n=5 F5 family x 2 computers; n=6 200 K (cached) + 16 K (uncached); "
             "n=7 16 K (cached); history variants on seeded subsets")
 
@@ -68,6 +68,11 @@ def tasks(tier, seed):
         fam5, _ = F.family(5, "quick", seed)
         for K in F.sample(fam5, 48, seed, "c01q5"):
             add(5, K, "superadditive_cached")
+        for K in F.sample(fam5, 16, seed, "c01q5u"):
+            add(5, K, "superadditive")
+        fam6, _ = F.family(6, "quick", seed)
+        for K in fam6[:4]:
+            add(6, K, "superadditive_cached")
     return out
 
 
